@@ -26,8 +26,8 @@ func init() {
 				n = 25000
 			}
 			return fw.Meta{N: n, Level: "exploration", Chunk: 10, CaseTimeoutS: 300, MinNT: 150,
-				Rule:        "one case = a stack of 1..6 real tables over a universe of 3..30 keys (optionally incl. the empty key) with arbitrarily overlapping key sets, unique values per (table,key), tombstones (nil) over values and values over tombstones, some empty values, empty tables; index loader default/disk/skiplist/slice by case, half of the skip-list-loader stacks ordered by a DESCENDING comparator (writer, loader, stacked reader and merger all get it); model = apply tables oldest->newest. Checked: stacked Get/Contains on all keys+neighbours, Scan, ScanStartingAt and ScanRange for probe samples, pairs of scans alive at the same time (lock-step and later-drained-first), MergeCompact with both provided reductions into a real writer (read back), MergeCompactIterator, and plain Merge on a disjoint re-partition. Non-trivial: >=3 tables sharing >=1 key with differing values and >=1 tombstone-over-value; distinct by content hash",
-				MinObs:      map[string]int64{"stacked_gets": 10000, "stacked_scans": 3000, "compacting_merges": 500, "plain_merges": 200, "stacks_with_empty_key": 50, "tombstone_over_value": 500, "value_over_tombstone": 300, "same_key_in_3plus_tables": 300, "stacks_ordered_by_a_descending_comparator": 30, "simultaneous_scan_pairs": 500},
+				Rule:        "one case = a stack of 1..6 real tables over a universe of 3..30 keys (optionally incl. the empty key) with arbitrarily overlapping key sets, unique values per (table,key), tombstones (nil) over values and values over tombstones, some empty values, empty tables; index loader default/disk/skiplist/slice by case, half of the skip-list-loader stacks ordered by a DESCENDING comparator (writer, loader, stacked reader and merger all get it); model = apply tables oldest->newest. Checked: stacked Get/Contains on all keys+neighbours, Scan, ScanStartingAt and ScanRange for probe samples, pairs of scans alive at the same time (lock-step and later-drained-first), MergeCompact with both provided reductions into a real writer (read back), MergeCompactIterator, and plain Merge on a disjoint re-partition. Non-trivial: >=3 tables sharing >=1 key with differing values and >=1 tombstone-over-value; distinct by content hash Half of the stacks are written with compressed index files (and a random data compression); one key family is long (43+ bytes) and compresses well.",
+				MinObs:      map[string]int64{"stacks_with_compressed_index_files": 50, "stacked_gets": 10000, "stacked_scans": 3000, "compacting_merges": 500, "plain_merges": 200, "stacks_with_empty_key": 50, "tombstone_over_value": 500, "value_over_tombstone": 300, "same_key_in_3plus_tables": 300, "stacks_ordered_by_a_descending_comparator": 30, "simultaneous_scan_pairs": 500},
 				Assumptions: []string{"tombstone = nil value; the skip-tombstones reduction additionally drops empty values (as documented)", "a merged table is compared after filtering nil values from its read-back, so both 'tombstones dropped' and 'tombstones kept' outputs are accepted for the latest-wins reduction"},
 			}
 		},
